@@ -450,3 +450,47 @@ def gen_multi(tier, seed):
             stats["kind"][kind] = stats["kind"].get(kind, 0) + 1
             stats["boxes"] += len(boxes)
     return cases, stats
+
+
+# ---------------------------------------------------------------- C interface
+CTYPES = {"int32": (32, 1), "int64": (64, 1), "uint32": (32, 0), "uint64": (64, 0)}
+def gen_capi(tier, seed):
+    rng = random.Random(seed * 86028121 + 41)
+    cases, stats = [], {"cix": 0, "cdy": 0, "eps": {}, "ops": {}}
+    cid = 0
+    for ty, (kb, sg) in CTYPES.items():
+        for j in range(12 if tier == "quick" else 120):
+            eps = rng.choice([1, 1, 2, 3, 7, 64, 4096, rng.randint(1, 300)])
+            style = STYLES[(j + rng.randint(0, 7)) % len(STYLES)]
+            n = rng.choice([1, 2, 3, 9, rng.randint(1, 64), rng.randint(20, 400), rng.randint(100, 1500 if tier == "quick" else 5000)])
+            keys = gen_keys(rng, kb, sg, n, eps, style)
+            if not keys: continue
+            if rng.random() < 0.08: keys[-1] = krange(kb, sg)[1]          # reserved value: create must return NULL
+            qs = gen_queries(rng, kb, sg, [k for k in keys if k < krange(kb, sg)[1]] or [0], 40 if tier == "quick" else 120)
+            cid += 1
+            cases.append("CIX c%d %s %d | %s | %s" % (cid, ty, eps, " ".join(map(str, keys)), " ".join(map(str, qs))))
+            stats["cix"] += 1; stats["eps"][eps if eps in (1, 2, 3, 7, 64, 4096) else "other"] = stats["eps"].get(eps if eps in (1, 2, 3, 7, 64, 4096) else "other", 0) + 1
+        lo, hi = krange(kb, sg)
+        for j in range(4 if tier == "quick" else 40):
+            universe = rng.choice([50, 2000, 100000])
+            origin = rng.randint(lo, hi - universe - 2)
+            key = lambda: origin + rng.randrange(universe)
+            val = lambda: rng.randint(max(lo, -1000), min(hi - 1, 1000000))
+            nb = rng.choice([0, 0, 5, 300, 2000])
+            bulk = ["-"] if rng.random() < 0.3 else ["%d:%d" % (k, val()) for k in sorted(key() for _ in range(nb))]
+            ops = []
+            nops = rng.choice([100, 700, 1500]) if tier == "quick" else rng.choice([300, 2000, 6000])
+            for t in range(nops):
+                r = rng.random()
+                if r < 0.62: ops.append("I:%d:%d" % (key(), val())); o = "I"
+                elif r < 0.80: ops.append("E:%d" % key()); o = "E"
+                elif r < 0.94: ops.append("F:%d" % key()); o = "F"
+                elif r < 0.97: ops.append("T:%d" % key()); o = "T"
+                elif r < 0.985: ops.append("S"); o = "S"
+                else: ops.append("B"); o = "B"
+                stats["ops"][o] = stats["ops"].get(o, 0) + 1
+            ops += ["B", "S"]
+            cid += 1
+            cases.append("CDY c%d %s | %s | %s" % (cid, ty, " ".join(bulk), " ".join(ops)))
+            stats["cdy"] += 1
+    return cases, stats
